@@ -151,6 +151,14 @@ func derTreeEdits(v []byte, protected func(content []byte) bool, maxPerKind int)
 				emit()
 				n.content = append([]byte{0xff}, orig...) // negative / out-of-range lead byte
 				emit()
+				if n.tag[0] == 0x02 {
+					// a larger POSITIVE value with the same low bytes (one and two more significant octets): what a fixed-width
+					// consumer has no room for
+					n.content = append([]byte{0x01}, orig...)
+					emit()
+					n.content = append([]byte{0x7f, 0xff}, orig...)
+					emit()
+				}
 				if len(orig) > 1 {
 					n.content = orig[1:]
 					emit()
